@@ -6,10 +6,10 @@ CONSTANTS
   Weights <- W12
   DistinctHi = TRUE
   Straddle = FALSE
-  PassKinds <- PassAll
-  Limits <- Limits07
+  PassKinds <- PassVolInode
+  Limits <- Limits05
   OpenWs <- Open01
-  WithPq = TRUE
+  WithPq = FALSE
   MaxCrash = 1
   MaxRepeat = 1
   DetOrder = FALSE
